@@ -39,7 +39,8 @@ TRUSTED_BASE = [
     "constants / straight-line arithmetic of lzw.py, runlength.py, apply_png_predictor, apply_tiff_predictor and the "
     "`endstream` marker + Length clamp of pdfparser.py (all linked to the model by proved theorems or used by it directly)",
     "zlib (Flate) is an abstract inverse pair in Lean; the driver receives zlib's results from the harness",
-    "base64.a85decode (CPython) is modelled by hand from its source",
+    "base64.a85decode (CPython): loop structure modelled by hand; its constants, guards and arithmetic are translated "
+    "from the running interpreter's source and linked by a85decode_translated; struct.pack('!I') overflow is hand-modelled",
     "shared PDF writer tools/harness/pdfwriter.py for the generated files",
 ]
 ASSUMPTIONS = [
@@ -78,6 +79,9 @@ STATEMENT_STATUS: Dict[str, str] = {
         "(nbitsAfter, pngNbytes, pngBpp are used by the model directly)",
     "lzw_readbits_translated": "proved: one iteration of the model's LZW bit reader = the translated loop body of "
         "LZWDecoder.readbits (shifts / masks as Python writes them), for every reader state",
+    "a85decode_translated": "proved: one iteration of the model's a85decode loop and its final padding step = the code "
+        "translated from the source of base64.a85decode of the running interpreter (defaults foldspaces=adobe=False, "
+        "ignorechars, digit range, group length, 85*acc+(x-33), z group, b'u'*4, 4-len(curr))",
     "predictor_translated": "proved: the model's predictor dispatch = the translated `pred == 1 / == 2 / >= 10 / else` chain of "
         "PDFStream._decode with the translated Colors / Columns / BitsPerComponent defaults",
     "stream_read_exact": "proved: whole stream branch (streamRead), Length = |payload|: rawdata = payload (any bytes) and the "
